@@ -188,6 +188,15 @@ def block(draw, bits, max_size=60):
         vals = draw(st.one_of(st.lists(val, min_size=n, max_size=n), st.just([False if bits else 0] * n)))
         return {'shape': 'seq', 'start': start, 'values': vals}
     base = draw(st.one_of(st.integers(0, 10), st.integers(0, 65400)))
+    if draw(st.integers(0, 5)) == 0:
+        # a sparse block with long runs of consecutive cells (requests of more than 125 cells need them), a hole in between
+        n1 = draw(st.sampled_from([126, 127, 130, 200, 300, 2000] if bits else [124, 125, 126, 130]))
+        n2 = draw(st.sampled_from([0, 1, 130]))
+        base = min(base, 65535 - n1 - n2 - 2)
+        keys = list(range(base, base + n1)) + list(range(base + n1 + 1, base + n1 + 1 + n2))
+        seed_ = draw(st.integers(1, 0xFFFF))
+        vals = [bool((i * seed_ >> 3) & 1) if bits else (i * seed_) & 0xFFFF for i in range(len(keys))]
+        return {'shape': 'sparse', 'keys': keys, 'values': vals}
     offs = draw(st.lists(st.integers(0, 50), min_size=1, max_size=30, unique=True))
     keys = sorted(base + o for o in offs)
     return {'shape': 'sparse', 'keys': keys, 'values': draw(st.lists(val, min_size=len(keys), max_size=len(keys)))}
